@@ -1,5 +1,6 @@
 import Tw.Model.ServerBrowse
 import Tw.Proofs.ServerBrowseOrder
+import Tw.Proofs.ServerBrowse
 
 /-! Merging the parts of one multi-part server info: specification-level definitions
 (`Family`, its parts, what "all parts seen" means) and the fold lemmas. -/
@@ -98,6 +99,159 @@ theorem rangeMask_ne_zero {off len : Nat} (h : 0 < len) : rangeMask off len ≠ 
   rw [e] at this
   simp at this
   omega
+
+theorem rangeMask_succ (j n : Nat) : 2 ^ j ||| rangeMask (j + 1) n = rangeMask j (n + 1) := by
+  apply Nat.eq_of_testBit_eq
+  intro i
+  simp only [Nat.testBit_or, rangeMask_testBit, Nat.testBit_two_pow]
+  by_cases a : j = i <;> by_cases b : j + 1 ≤ i <;> by_cases c : i < j + 1 + n <;> by_cases d : j ≤ i <;>
+    by_cases e : i < j + (n + 1) <;> simp [a, b, c, d, e] <;> omega
+
+/-! ### The masks the parser builds -/
+
+/-- the legacy client loop sets exactly the bits of the slots of the clients it keeps -/
+theorem parseClients_mask_legacy (hs : SLOT_SKIP_FROM = RECEIVED_BITS) (ri : Reader Int) :
+    ∀ (fuel j : Nat) (bs : List UInt8) (acc : List ClientInfo) (recv : Nat) (cs : List ClientInfo) (r : Nat),
+      parseClients ri .v664 fuel j bs acc recv = .ok (some (cs, r)) →
+      ∃ n, cs.length = acc.length + n ∧ r = recv ||| rangeMask j n ∧ (n = 0 ∨ j + n ≤ RECEIVED_BITS) := by
+  intro fuel
+  induction fuel with
+  | zero =>
+    intro j bs acc recv cs r h
+    simp only [parseClients, Outcome.ok.injEq, Option.some.injEq, Prod.mk.injEq] at h
+    exact ⟨0, by simp [h.1], by simp [rangeMask_zero, h.2], Or.inl rfl⟩
+  | succ fuel ih =>
+    intro j bs acc recv cs r h
+    unfold parseClients at h
+    cases hc : readClient ri .v664 bs with
+    | stop =>
+      simp only [hc, Outcome.ok.injEq, Option.some.injEq, Prod.mk.injEq] at h
+      exact ⟨0, by simp [h.1], by simp [rangeMask_zero, h.2], Or.inl rfl⟩
+    | fail => simp [hc] at h
+    | client c rest =>
+      simp only [hc, if_true] at h
+      by_cases hj : j ≥ SLOT_SKIP_FROM
+      · simp only [hj, if_true] at h
+        obtain ⟨n, h1, h2, h3⟩ := ih _ _ _ _ _ _ h
+        have hn : n = 0 := by
+          rcases h3 with h3 | h3
+          · exact h3
+          · omega
+        subst hn
+        exact ⟨0, h1, by simp [rangeMask_zero] at h2 ⊢; exact h2, Or.inl rfl⟩
+      · simp only [hj, if_false] at h
+        have hj' : j < RECEIVED_BITS := by omega
+        rw [shl1_ok hj'] at h
+        simp only at h
+        obtain ⟨n, h1, h2, h3⟩ := ih _ _ _ _ _ _ h
+        refine ⟨n + 1, by simp at h1; omega, ?_, Or.inr (by omega)⟩
+        rw [h2, shl_one, Nat.or_assoc, rangeMask_succ]
+
+/-- for the other versions the loop leaves the mask alone -/
+theorem parseClients_mask_other (ri : Reader Int) (ver : Version) (hv : ver ≠ .v664) :
+    ∀ (fuel j : Nat) (bs : List UInt8) (acc : List ClientInfo) (recv : Nat) (cs : List ClientInfo) (r : Nat),
+      parseClients ri ver fuel j bs acc recv = .ok (some (cs, r)) → r = recv := by
+  intro fuel
+  induction fuel with
+  | zero =>
+    intro j bs acc recv cs r h
+    simp only [parseClients, Outcome.ok.injEq, Option.some.injEq, Prod.mk.injEq] at h
+    exact h.2.symm
+  | succ fuel ih =>
+    intro j bs acc recv cs r h
+    unfold parseClients at h
+    cases hc : readClient ri ver bs with
+    | stop =>
+      simp only [hc, Outcome.ok.injEq, Option.some.injEq, Prod.mk.injEq] at h
+      exact h.2.symm
+    | fail => simp [hc] at h
+    | client c rest =>
+      simp only [hc, hv, if_false] at h
+      exact ih _ _ _ _ _ _ h
+
+theorem parseBody_result {ri : Reader Int} {ver : Version} {info : ServerInfo} {packetNo offset : Nat}
+    {bs : List UInt8} {p : PartialInfo} (h : parseBody ri ver info packetNo offset bs = .ok (some p)) :
+    ∃ (bs' : List UInt8) (cs : List ClientInfo) (r : Nat),
+      parseClients ri ver (bs'.length + 1) offset bs' [] (if ver = .v6Ex then 1 <<< packetNo else 0) = .ok (some (cs, r)) ∧
+      p = { info := { info with clients := cs }, received := r } := by
+  unfold parseBody at h
+  simp only at h
+  split at h
+  · simp at h
+  · rename_i bs' _
+    by_cases hv : ver = .v6Ex
+    · simp only [hv, if_true] at h ⊢
+      by_cases hpn : packetNo ≥ RECEIVED_BITS
+      · simp [shl1, hpn] at h
+      · simp only [shl1, hpn, if_false] at h
+        split at h
+        · simp at h
+        · simp at h
+        · rename_i cs r hpc
+          simp only [Outcome.ok.injEq, Option.some.injEq] at h
+          exact ⟨bs', cs, r, hpc, h.symm⟩
+    · simp only [hv, if_false] at h ⊢
+      split at h
+      · simp at h
+      · simp at h
+      · rename_i cs r hpc
+        simp only [Outcome.ok.injEq, Option.some.injEq] at h
+        exact ⟨bs', cs, r, hpc, h.symm⟩
+
+/-- The `received` mask of whatever the parser returns, per kind: the main packet of an extended
+info has bit 0, an `iex+` packet the bit of its packet number (1..63), a legacy packet the bits of
+the slots of the clients it kept (none beyond slot 63), the single-packet kinds nothing. -/
+theorem parsePartial_mask (hs : SLOT_SKIP_FROM = RECEIVED_BITS) (k : InfoKind) (payload : List UInt8) (p : PartialInfo)
+    (h : parsePartial k payload = .ok (some p)) :
+    match k with
+    | .info6Ex => p.received = 1
+    | .info6ExMore => ∃ n, PACKET_NO_MIN ≤ n ∧ n < PACKET_NO_REJECT_FROM ∧ p.received = 1 <<< n
+    | .info664 => ∃ off n, p.received = rangeMask off n ∧ p.info.clients.length = n ∧ (n = 0 ∨ off + n ≤ RECEIVED_BITS)
+    | _ => p.received = 0 := by
+  unfold parsePartial parseServerInfo at h
+  cases h0 : k.reader payload with
+  | none => simp [h0] at h
+  | some q =>
+    obtain ⟨token, bs1⟩ := q
+    simp only [h0] at h
+    cases k with
+    | info6ExMore =>
+      simp only [InfoKind.received] at h
+      cases h1 : parseHeadMore InfoKind.info6ExMore.reader token bs1 with
+      | none => simp [h1] at h
+      | some q1 =>
+        obtain ⟨info, n, bs2⟩ := q1
+        simp only [h1] at h
+        obtain ⟨bs', cs, r, hpc, hp⟩ := parseBody_result h
+        have hr := parseClients_mask_other _ .v6Ex (by decide) _ _ _ _ _ _ _ hpc
+        simp only [if_true] at hr
+        have hb := parseHeadMore_bound h1
+        have hlo : PACKET_NO_MIN ≤ n := by
+          unfold parseHeadMore at h1
+          cases hri : InfoKind.info6ExMore.reader bs1 with
+          | none => simp [hri] at h1
+          | some pr =>
+            obtain ⟨pn, bs''⟩ := pr
+            simp only [hri, Option.bind_eq_bind, Option.bind_some] at h1
+            split at h1
+            · simp at h1
+            · simp only [Option.pure_def, Option.some.injEq, Prod.mk.injEq] at h1
+              omega
+        exact ⟨n, hlo, hb, by rw [hp]; exact hr⟩
+    | info5 | info6 | info6Ddper | info7 | info664 | info6Ex =>
+      simp only [InfoKind.received] at h
+      split at h
+      · simp at h
+      · rename_i info offset bs2 _
+        obtain ⟨bs', cs, r, hpc, hp⟩ := parseBody_result h
+        first
+        | (have hr := parseClients_mask_other _ _ (by decide) _ _ _ _ _ _ _ hpc
+           simp only [hp]
+           simpa using hr)
+        | (obtain ⟨n, h1, h2, h3⟩ := parseClients_mask_legacy hs _ _ _ _ _ _ _ _ hpc
+           refine ⟨offset, n, ?_, ?_, h3⟩
+           · rw [hp]; simpa using h2
+           · rw [hp]; simpa using h1)
 
 /-! ### Legacy (dtsf) accumulation: the mask of the accumulator stays that of the first part -/
 
@@ -367,8 +521,8 @@ theorem length_flatMap_filter {α : Type} (l : List Nat) (P : Nat → Bool) (g :
   | cons a l ih =>
     simp only [List.length_flatMap] at ih ⊢
     by_cases h : P a = true
-    · simp [List.filter_cons, h]; omega
-    · simp [List.filter_cons, h]; omega
+    · simp [h]; omega
+    · simp [h]; omega
 
 theorem nodup_map_of_inj {α β : Type} (g : α → β) : ∀ (l : List α), l.Nodup →
     (∀ a ∈ l, ∀ b ∈ l, g a = g b → a = b) → (l.map g).Nodup
